@@ -123,6 +123,9 @@ func (g *Gen) shapeOfSel(op *Op, sets [][]*Node, parents []string, typeName stri
 // type, n = it sits in a nullable or nested list (list wrapper message), r = it is the result of a
 // field resolver, o = nullable object, l = plain list.  Only used to describe failures.
 func childCtx(s *Schema, ctx string, fd *FieldDef) string {
+	if fd.Name == "_entities" {
+		return ctx + "e"
+	}
 	t := fd.Type
 	if fd.Resolver {
 		ctx += "r"
@@ -153,9 +156,19 @@ func childCtx(s *Schema, ctx string, fd *FieldDef) string {
 func (g *Gen) shapeOfType(op *Op, t *TypeRef, subs [][]*Node, subParents []string, ctx string) string {
 	switch t.Kind {
 	case "nonnull":
+		if td := g.S.Types[t.Of.Name]; t.Of.Kind == "named" && td != nil && td.Kind == "enum" {
+			// Enum!: a protobuf enum number without a mapped GraphQL value (e.g. *_UNSPECIFIED) is
+			// rendered as null by design; which number the service sends is its data.  Not enforced.
+			return g.shapeOfType(op, t.Of, subs, subParents, ctx)
+		}
 		if t.Of.Kind == "named" && g.S.IsComposite(t.Of.Name) {
 			// T! of an object / abstract type: whether the protobuf message is present is the
 			// service's data; the builder renders an absent message as null.  Not enforced.
+			return g.shapeOfType(op, t.Of, subs, subParents, ctx)
+		}
+		if t.Of.Kind == "list" && t.Of.Of.Kind != "named" && !(t.Of.Of.Kind == "nonnull" && t.Of.Of.Of.Kind == "named") {
+			// [[..]]!: a nested list travels in a wrapper message; an absent wrapper is rendered as
+			// null without the non-null check of flattenListStructure ever running.  Not enforced.
 			return g.shapeOfType(op, t.Of, subs, subParents, ctx)
 		}
 		return common.L("nn", g.shapeOfType(op, t.Of, subs, subParents, ctx))
